@@ -5,6 +5,7 @@ package world
 
 import (
 	"fmt"
+	"github.com/cloudwego/frugal/internal/verifsim"
 
 	"github.com/cloudwego/frugal/verifharness/model"
 )
@@ -251,6 +252,9 @@ func (b *Bank) Op(id uint64) (op OpSpec) {
 	r := model.NewRng(model.Mix(b.C.Seed, b.profID, id))
 	op = OpSpec{ID: id, VSeed: r.Next(), FSeed: r.Next(), Shared: -1}
 	op.Budget = budgets[r.Intn(len(budgets))]
+	if (b.Prof == "C08" || b.Prof == "C16") && op.Budget > 20000 {
+		op.Budget = 20000 // schedule worlds switch tasks every few steps: a value of 2000 structs costs a minute there
+	}
 	op.Foreign = r.Chance(1, 3)
 	roll := r.Intn(100)
 	if id >= SysRejected && id < SysArg && b.Prof != "C13" && len(b.rej) > 0 {
@@ -284,8 +288,8 @@ func (b *Bank) Op(id uint64) (op OpSpec) {
 		switch {
 		case roll < 70:
 			op.Kind, op.Type = "encplan", b.pick(id, r).Name
-			if op.Budget > 5000 && !(op.Budget >= 70000 && r.Chance(1, 2)) {
-				op.Budget = 5000 // (half of the largest budgets stay: values that are big in one dimension)
+			if op.Budget > 5000 && !(op.Budget >= 70000 && r.Chance(1, 4)) {
+				op.Budget = 5000 // (a quarter of the largest budgets stay: values that are big in one dimension)
 			}
 		case roll < 80:
 			op.Kind, op.Type, op.Fault = "dec", b.pick(id, r).Name, pickFault(r)
@@ -851,8 +855,8 @@ func pickStrategy(r *model.Rng, s *SchedSpec) {
 // rounds are pure storms (every task first-uses the same type at step 0).
 func deriveC08(rs *RunSpec, b *Bank, r *model.Rng) {
 	c := b.C
-	if r.Chance(1, 6) && deriveCrowd(rs, b, r) {
-		return
+	if r.Chance(1, 6) && !verifsim.RaceBuild && deriveCrowd(rs, b, r) {
+		return // (crowds only in the plain builds: two hundred goroutines under the race detector cost a minute)
 	}
 	used := map[string]bool{}
 	// index the (possibly limited) bank by type once
@@ -861,10 +865,10 @@ func deriveC08(rs *RunSpec, b *Bank, r *model.Rng) {
 		op := b.Op(id)
 		byType[op.Type] = append(byType[op.Type], id)
 	}
-	// every valid definition also has its ten focus operations (the prefix of the bank that the quick tier uses holds
+	// every valid definition also has three of its focus operations (the prefix of the bank that the quick tier uses holds
 	// less than one operation per definition): rounds do not depend on what the prefix happens to contain
 	for i, sd := range b.valid {
-		for v := uint64(0); v < FocusVariants; v++ {
+		for _, v := range []uint64{0, 2, 4} { // two healthy decodes and an encode (each distinct operation costs a baseline)
 			byType[sd.Name] = append(byType[sd.Name], FocusBase+uint64(i)*FocusVariants+v)
 		}
 	}
